@@ -174,8 +174,8 @@ def run(ctx):
         ctx.sample({"history_from_spec_mutant": sw, "streams": streams, "hist": hist})
         k += 1
     # simulated histories: mostly with D3's condition excluded (a D3 loss costs a 6 s quiet period), a few faithful ones
-    plans = [({"ResidualOnly": "TRUE", "NLines": "5"}, 120 if thorough else 24), ({"ResidualOnly": "TRUE", "NLines": "5", "SyncMode": "FALSE"}, 120 if thorough else 24),
-             ({"NLines": "4"}, 24 if thorough else 6)]
+    plans = [({"ResidualOnly": "TRUE", "NLines": "5"}, 300 if thorough else 24), ({"ResidualOnly": "TRUE", "NLines": "5", "SyncMode": "FALSE"}, 300 if thorough else 24),
+             ({"NLines": "4"}, 48 if thorough else 6)]
     for ov, cnt in plans:
         res = ctx.tlc("FileInput", "FileInput_sim.cfg", overrides=ov, workers=1, simulate="num=%d" % cnt, depth=80, seed=ctx.seed,
                       timeout=900, deadlock=False, check=False, name="FileInput/simulate")
